@@ -19,12 +19,13 @@ ENGINE = "scale"
 KINDS = ["bloom", "disk", "cbloom", "cms", "ebf", "rbf", "qf", "cko", "ccko", "hh", "st", "bits"]
 SERVES = {"C01": ["bloom", "disk", "ebf"], "C02": ["cms"], "C03": ["cko", "ccko"], "C04": ["qf"], "C05": ["bloom", "disk", "cbloom", "cms", "ebf", "cko", "ccko"],
           "C08": ["cbloom", "ccko"], "C09": ["ebf"], "C10": ["rbf"], "C11": ["disk"], "C12": ["bloom", "disk", "cbloom", "cms"], "C15": ["cko", "ccko"],
-          "C14": ["bloom", "disk", "cbloom", "cms", "ebf", "rbf", "qf", "cko", "ccko"], "C17": ["hh", "st"], "C20": ["bits"],
+          "C13": ["bloom", "disk", "cbloom"],
+          "C14": ["bloom", "disk", "cbloom", "cms", "ebf", "rbf", "qf", "cko", "ccko"], "C17": ["hh", "st"], "C20": ["bits"], "C07": ["cko", "ccko"],
           "C19": ["bloom", "disk", "cbloom", "cms", "ebf", "rbf", "qf", "cko", "ccko", "hh"]}
 NOAUX = {"ns": [], "q": 0, "lost": 0, "uniq": 0, "dump": 0}
 # "big" configurations: each crosses a block-size mark that a blocked / paged / buffered implementation would care about
 BIG = {
-    "bloom": [(21020, 0.05), (7000, 0.01), (100000, 0.01), (3500, 0.01), (20000, 0.01)],   # 16384 B (= 4 x 4096), 8407 B, 119814 B, 4194 B, 23963 B
+    "bloom": [(21020, 0.05), (100000, 0.01), (7000, 0.01), (3500, 0.01), (20000, 0.01)],   # 16384 B (= 4 x 4096), 8407 B, 119814 B, 4194 B, 23963 B
     "disk": [(7000, 0.01), (100000, 0.01), (21020, 0.05), (20000, 0.01)],
     "cbloom": [(3000, 0.01), (5000, 0.02), (1200, 0.05)],                                    # 28756 / 40712 / 7483 counters
     "cms": [(20000, 5), (1024, 8), (5000, 4)],
@@ -33,8 +34,8 @@ BIG = {
     "hh": [(100, 1000, 5), (20, 64, 4)],            # (number of hitters, width, depth)
     "st": [(20, 1000, 5), (5, 50, 3)],              # (threshold, width, depth)
     "bits": [32771, 8192, 65536, 524309, 8191, 32768, 524288],     # Bitarray sizes at and just past 1 KiB, 4 KiB, 8 KiB, 64 KiB of storage
-    "cko": [(20000, 4, 500, True), (500, 4, 500, False), (1000, 3, 300, True), (1500, 2, 300, False)],   # > 65536 slots; nearly full with max_swaps > 128; odd bucket size
-    "ccko": [(1024, 4, 500, True), (40000, 4, 500, False), (500, 4, 500, False), (1000, 3, 300, True)],   # >= 1024 buckets with automatic expansion; > 131072 bins
+    "cko": [(20000, 4, 500, True), (500, 4, 500, False), (1000, 3, 300, True), (100, 2, 500, True, "er"), (1500, 2, 300, False)],   # > 65536 slots; nearly full with max_swaps > 128; odd bucket size
+    "ccko": [(1024, 4, 500, True), (40000, 4, 500, False), (1000, 4, 500, True, "fs4"), (500, 4, 500, False), (100, 2, 500, True, "er"), (1000, 3, 300, True)],   # >= 1024 buckets with automatic expansion; > 131072 bins
     "qf": [(8, True), (7, False), (8, False), (7, False), (8, False), (7, False), (9, False), (9, True)],   # dense, nearly full tables: long wrapping clusters
 }
 
@@ -134,19 +135,27 @@ class Rec:
             self.posfn = lambda key: [0]
         elif kind in ("cko", "ccko"):
             cls = P.CuckooFilter if kind == "cko" else P.CountingCuckooFilter
+            self.er = None
             if big:
-                cap, bs, ms, auto = self.cfg
+                cap, bs, ms, auto = self.cfg[:4]
+                mode = self.cfg[4] if len(self.cfg) > 4 else None
             else:
                 cap, bs, ms, auto = rnd.choice([(16, 2, 20, True), (64, 4, 50, False), (10, 3, 30, True)])
-            self.fs = rnd.choice([2, 3])
-            self.obj = cls(capacity=cap, bucket_size=bs, max_swaps=ms, auto_expand=auto, finger_size=self.fs)
+                mode = rnd.choice([None, None, "fs4"])
+            self.fs = 4 if mode == "fs4" else rnd.choice([2, 3])
+            if mode == "er":     # sized by error rate: the fingerprint width is derived, and must be derived alike after a reload
+                self.er = 0.05
+                self.obj = cls.init_error_rate(self.er, capacity=cap, bucket_size=bs, max_swaps=ms, auto_expand=auto)
+            else:
+                self.obj = cls(capacity=cap, bucket_size=bs, max_swaps=ms, auto_expand=auto, finger_size=self.fs)
             tr.update(m=cap, k=bs, auto=auto)
             if big:
-                self.nkeys = {20000: 45000, 500: 2100, 1024: 16000, 1500: 3100, 1000: 5000, 40000: 30000}[cap]
+                self.nkeys = {20000: 45000, 500: 2100, 1024: 16000, 1500: 3100, 1000: 6000, 40000: 30000, 100: 3000}[cap]
             else:
                 self.nkeys = rnd.randint(30, 120)
-            mask = (1 << (8 * self.fs)) - 1
-            self.posfn = lambda key: [(fnv_1a(key) & mask) or 1]
+            mask = (1 << self.obj.fingerprint_size_bits) - 1
+            classes = {}     # fingerprint -> small class id (fingerprints of 4 bytes do not fit TLC's integers)
+            self.posfn = lambda key: [classes.setdefault((fnv_1a(key) & mask) or 1, len(classes) + 1)]
         else:
             q, auto = self.cfg if big else (rnd.choice([3, 4, 5, 6, 7, 8]), rnd.random() < 0.6)
             self.obj = P.QuotientFilter(quotient=q, auto_expand=auto)
@@ -250,12 +259,16 @@ class Rec:
                     loads = [("frombytes", lambda: cls.frombytes(data, hash_function=hf)), ("filepath", lambda: cls(filepath=path, hash_function=hf))]
                 elif kind == "rbf":
                     loads = [("frombytes", lambda: cls.frombytes(data, max_queue_size=self.tr["qmax"], hash_function=hf))]
+                elif kind in ("cko", "ccko") and self.er:
+                    loads = [("frombytes_error_rate", lambda: cls.frombytes(data, error_rate=self.er)), ("load_error_rate", lambda: cls.load_error_rate(self.er, path))]
                 elif kind in ("cko", "ccko"):
                     loads = [("frombytes", lambda: cls.frombytes(data)), ("filepath", lambda: cls(filepath=path))]
             for name, mk in loads:
                 g = mk()
-                if kind in ("cko", "ccko"):
+                if kind in ("cko", "ccko") and not self.er:
                     g.fingerprint_size = self.fs
+                if kind in ("cko", "ccko") and self.er:
+                    self.hcheck(g.fingerprint_size_bits == obj.fingerprint_size_bits, "C07.stable_across_reload.scale", kind=kind, loaded_bits=g.fingerprint_size_bits, original_bits=obj.fingerprint_size_bits, capacity=obj.capacity)
                 got = [g.check(self.keys[j]) for j in sample]
                 self.hcheck(got == want, "C05.queries.scale", kind=kind, channel=name, differing=sum(1 for a, b in zip(got, want) if a != b))
                 self.hcheck(g.elements_added == obj.elements_added, "C05.geometry.scale", kind=kind, channel=name, loaded=g.elements_added, original=obj.elements_added)
@@ -511,7 +524,7 @@ class Rec:
     def counter_merge(self, done):
         """counting-Bloom union (a query) / count-min join (modifies the receiver) with a second structure holding a batch of keys"""
         rnd, kind = self.rnd, self.kind
-        ks = [(j, rnd.choice([1, 2])) for j in rnd.sample(range(self.nkeys), min(300, self.nkeys))]
+        ks = [(j, rnd.choice([1, 2, 256, 512, 65536])) for j in rnd.sample(range(self.nkeys), min(300, self.nkeys))]
         B = type(self.obj)(**self.args)
         for j, a in ks:
             B.add(self.keys[j], a)
@@ -521,6 +534,13 @@ class Rec:
                 self.hcheck(False, "C13.compatible_not_none.scale")
                 return
             self.tr["ev"].append({"op": "union", "ks": [[j + 1, a] for j, a in ks], "a": 0, "ret": 0, "n": 0, "probes": [], "full": self.full(res), "aux": dict(NOAUX)})
+            inter = self.obj.intersection(B)
+            j1, j2 = self.obj.jaccard_index(B), B.jaccard_index(self.obj)
+            ca, cb = list(self.obj.bloom), list(B.bloom)
+            ni, nu = sum(1 for x, y in zip(ca, cb) if x and y), sum(1 for x, y in zip(ca, cb) if x or y)
+            self.hcheck(inter is not None and j1 == j2 == (1.0 if nu == 0 else ni / nu), "C13.jaccard_value.scale", kind=kind, jaccard=[j1, j2], both=ni, either=nu)
+            if inter is not None:
+                self.tr["ev"].append({"op": "inter", "ks": [[j + 1, a] for j, a in ks], "a": 0, "ret": 0, "n": 0, "probes": [], "full": self.full(inter), "aux": dict(NOAUX)})
         else:
             b0 = bytes(B)
             self.obj.join(B)
@@ -556,8 +576,11 @@ class Rec:
         elif kind == "rbf":
             self.obj = P.RotatingBloomFilter.frombytes(bytes(obj), max_queue_size=self.tr["qmax"], hash_function=hf)
         elif kind in ("cko", "ccko"):
-            g = type(obj).frombytes(bytes(obj))
-            g.fingerprint_size = self.fs
+            if self.er:
+                g = type(obj).frombytes(bytes(obj), error_rate=self.er)
+            else:
+                g = type(obj).frombytes(bytes(obj))
+                g.fingerprint_size = self.fs
             g.auto_expand = obj.auto_expand
             self.obj = g
         else:
@@ -581,11 +604,18 @@ class Rec:
         for j in ks:
             B.add(self.keys[j])
         res = self.obj.union(B) if rnd.random() < 0.5 else B.union(self.obj)
+        inter = self.obj.intersection(B) if rnd.random() < 0.5 else B.intersection(self.obj)
+        j1, j2 = self.obj.jaccard_index(B), B.jaccard_index(self.obj)
+        da, db = bytes(self.obj)[: (self.tr["m"] + 7) // 8], bytes(B)[: (self.tr["m"] + 7) // 8]
         if second_disk:
             B.close()
-        if res is None:
+        if res is None or inter is None or j1 is None:
             self.hcheck(False, "C13.compatible_not_none.scale")
             return
+        ia, ib = int.from_bytes(da, "little"), int.from_bytes(db, "little")
+        ni, nu = bin(ia & ib).count("1"), bin(ia | ib).count("1")
+        self.hcheck(j1 == j2 == (1.0 if nu == 0 else ni / nu), "C13.jaccard_value.scale", kind=self.kind, jaccard=[j1, j2], both=ni, either=nu)
+        self.tr["ev"].append({"op": "inter", "ks": [[j + 1, 1] for j in ks], "a": 0, "ret": 0, "n": 0, "probes": [], "full": self.full(inter), "aux": dict(NOAUX)})
         ev = {"op": "union", "ks": [[j + 1, 1] for j in ks], "a": 0, "ret": 0, "n": 0,
               "probes": [[j + 1, int(res.check(self.keys[j]))] for j in list(pi) + list(ks[:40])], "full": self.full(res), "aux": dict(NOAUX)}
         self.tr["ev"].append(ev)
@@ -606,12 +636,31 @@ class Rec:
                     break
                 if kind in ("cko", "ccko"):
                     self.big_cuckoo_batch(batch, done)
+                    if b in (2, 6) and self.obj.capacity < 30000:     # a manual expansion; then export + reload with what the format does not store
+                        self.obj.expand()
+                        self.emit("exp", [], probe_idx=rnd.sample(done, min(100, len(done))) if done else [])
+                        self.table_invariants(self.obj, "C15.table.scale")
+                        self.roundtrip()
+                    if b in (5, 9) and done:      # removals: every other key must stay (and, counting, keep its count)
+                        rem = rnd.sample(done, len(done) // 3)
+                        ok = []
+                        for j in rem:
+                            if self.obj.remove(keys[j]):
+                                ok.append((j, 1))
+                            if len(ok) >= 400:
+                                self.emit("rem", ok, probe_idx=rnd.sample(done, min(80, len(done))))
+                                ok = []
+                        if ok:
+                            self.emit("rem", ok, probe_idx=rnd.sample(done, min(200, len(done))))
+                        rs = set(rem)
+                        done[:] = [j for j in done if j not in rs]
+                        self.table_invariants(self.obj, "C15.table.scale")
                     continue
                 amounts = []
                 for j in batch:
                     a = 1
                     if kind in ("cbloom", "cms"):
-                        a = rnd.choice([1, 1, 2, 5]) if rnd.random() < 0.97 else rnd.choice([250, 32700, 32767, 40000, 65530, 70000])   # hot keys: counters cross 2^8, 2^15, 2^16
+                        a = rnd.choice([1, 1, 2, 5]) if rnd.random() < 0.95 else rnd.choice([250, 256, 512, 1024, 32700, 32767, 40000, 65530, 65536, 70000])   # hot keys: counters at / across 2^8, 2^15, 2^16
                         self.obj.add(keys[j], a)
                     elif kind in ("ebf", "rbf"):
                         a = 0
@@ -781,7 +830,7 @@ def run(focus, tier, seed):
         n_long = 6
     jobs = []
     for kind in kinds:
-        if focus not in ("C05", "C11", "C12", "C15", "C19"):
+        if focus not in ("C05", "C11", "C12", "C13", "C15", "C19"):
             for _ in range(n_long):
                 jobs.append((seed, kind, len(jobs), False, nev))
         cfgs = BIG[kind]
